@@ -66,17 +66,17 @@ def plan(tier, seed):
             out.append({"name": f"lattice-{name}#{start}", "kind": "lattice", "lattice": name, "start": start,
                         "n": min(chunk, total - start), "total": total, "seed": seed, "tier": tier})
     if tier == "quick":
-        kinds = {"random": 8000, "from_random": 600}
+        kinds = {"random": 8000, "from_random": 600, "exact": 2500}
         per = 1000
     else:
-        kinds = {"random": 600000, "from_random": 20000}
+        kinds = {"random": 600000, "from_random": 20000, "exact": 150000}
         per = 15000
     return out + common.shards(kinds, per_shard=per, tier=tier, seed=seed)
 
 
 # ------------------------------------------------------------------ contract on remove_overlapping
 
-_state = {"rec": None, "installed": False}
+_state = {"rec": None, "installed": False, "exact": False}
 
 
 def _members(self):
@@ -127,10 +127,15 @@ def judge_removal(before, after, d_min, grid, rec):
     pos = [np.array(np.frombuffer(b.split(b"|", 2)[2], dtype=float)) for _, b in before]
     info = [(np.asarray(d.position, float).copy(), float(d.radius)) for d in objs]
     # knife-edge guard on the *input* configuration
+    exact = _state["exact"]  # exact arithmetic (dyadic lattice data): ties are decided, not skipped
+    tol = 0.0 if exact else 1e-9
     for (p, r1), (q, r2) in itertools.combinations(info, 2):
-        if abs(_sd(p, r1, q, r2, periods) - d_min) <= 1e-9:
+        gap = abs(_sd(p, r1, q, r2, periods) - d_min)
+        if gap <= 1e-9 and not (exact and gap == 0.0):
             rec.count("knife_edge_call_skipped")
             return
+        if exact and gap == 0.0:
+            rec.count("exact_ties_judged")
     ids_before = [id(d) for d in objs]
     ids_after = [id(d) for d in after]
     label = (f"d_min={d_min} grid={'periodic' if grid is not None else None} droplets="
@@ -147,7 +152,7 @@ def judge_removal(before, after, d_min, grid, rec):
     # separated
     for i, j in itertools.combinations(sorted(surv), 2):
         sd = _sd(info[i][0], info[i][1], info[j][0], info[j][1], periods)
-        rec.check(sd >= d_min - 1e-9, "separated",
+        rec.check(sd >= d_min - tol, "separated",
                   f"surviving droplets {i},{j} are only {sd} apart (surface to surface); {label}")
     if len(surv) < 2:
         rec.hit("post:separated")
@@ -156,7 +161,7 @@ def judge_removal(before, after, d_min, grid, rec):
         if i in surv:
             continue
         why = any(j != i and info[j][1] >= info[i][1] and
-                  _sd(info[i][0], info[i][1], info[j][0], info[j][1], periods) < d_min + 1e-9
+                  (_sd(info[i][0], info[i][1], info[j][0], info[j][1], periods) < d_min + tol)
                   for j in range(len(objs)))
         rec.check(why, "removed-justified",
                   f"droplet {i} was removed although no droplet at least as large is within d_min of it; {label}")
@@ -174,17 +179,24 @@ def judge_removal(before, after, d_min, grid, rec):
 # ------------------------------------------------------------------ query post-conditions
 
 
-def judge_queries(em, grid, rec, label):
+def judge_queries(em, grid, rec, label, order=(False, True)):
     periods = _periods(grid)
     n = len(em)
     info = [(np.asarray(d.position, float).copy(), float(d.radius)) for d in em]
     per = periods if periods is not None else ([None] * len(info[0][0]) if info else [])
     scale = 1.0 + max([np.abs(p).max() for p, _ in info], default=0.0)
-    for sub in (False, True):
+    for sub in order:
         call = common.monitored(rec, "get_pairwise_distances", em.get_pairwise_distances, subtract_radius=sub, grid=grid)
         if not rec.check(call.ok, "no-exception", f"get_pairwise_distances raised {call.exc!r}; {label}"):
             continue
-        M = np.asarray(call.result, float)
+        M = np.array(call.result, float, copy=True)
+        if isinstance(call.result, np.ndarray) and call.result.flags.writeable and call.result.size:
+            # the returned matrix belongs to the caller: overwriting it must not change the next answer
+            call.result[...] = -5.0
+            again = common.monitored(rec, "get_pairwise_distances", em.get_pairwise_distances, subtract_radius=sub, grid=grid)
+            rec.check(again.ok and np.array_equal(np.asarray(again.result, float), M), "pairwise-matrix",
+                      f"pairwise distances (subtract_radius={sub}) changed after the caller had overwritten the matrix "
+                      f"returned by the previous call; {label}")
         exp = np.zeros((n, n))
         for i in range(n):
             for j in range(n):
@@ -198,7 +210,7 @@ def judge_queries(em, grid, rec, label):
     # overlaps <=> surface distance < 0
     for i, j in itertools.combinations(range(n), 2):
         sd = geom.distance(info[i][0], info[j][0], per) - info[i][1] - info[j][1]
-        if abs(sd) <= 1e-9:
+        if abs(sd) <= 1e-9 and not (_state["exact"] and sd == 0.0):
             continue
         c = common.monitored(rec, "overlaps", em[i].overlaps, em[j], grid)
         c2 = common.monitored(rec, "overlaps", em[j].overlaps, em[i], grid)
@@ -263,6 +275,14 @@ def build(case):
 
 
 def run(case, rec):
+    _state["exact"] = bool(case.get("exact"))
+    try:
+        _run(case, rec)
+    finally:
+        _state["exact"] = False
+
+
+def _run(case, rec):
     grid = geom.make_grid(case["grid"]) if case.get("grid") else None
     em = build(case)
     d_min = case["d_min"]
@@ -281,6 +301,8 @@ def run(case, rec):
     call2 = common.monitored(rec, "remove_overlapping", em.remove_overlapping, d_min, grid)
     rec.check(call2.ok and [id(d) for d in em] == snap, "idempotent",
               f"a second call removed {n1 - len(em)} more droplets; {label}")
+    # the queries once more after the removal calls: earlier calls must not influence later answers
+    judge_queries(em, grid, rec, label + " [queried again after remove_overlapping]", order=(True, False))
     rec.evaluated(nontrivial=(n1 < n0) or n0 >= 3)
     rec.count(f"n:{min(n0, 8)}")
     rec.count(f"grid:{bool(grid)}|dim:{len(case['droplets'][0]) - 1 if case['droplets'] else 0}")
@@ -316,6 +338,24 @@ def run_lattice(spec, rec):
 
 
 def gen(rng, kind, tier):
+    if kind == "exact":
+        # dyadic lattice data: every distance that matters is computed exactly, so droplets that
+        # exactly touch (surface distance == d_min) are decided by the strict wording of the statement
+        dim = int(rng.choice([1, 2, 2, 3]))
+        n = int(rng.integers(3, 8))
+        lo = float(rng.integers(-4, 5))
+        k = int(rng.integers(2, 7))
+        sites = set()
+        while len(sites) < k:
+            sites.add(tuple(float(lo + rng.integers(0, 2 * n)) / 1.0 * 0.5 + 0.0 for _ in range(dim)))
+        drops = [list(p) + [float(rng.choice([0.25, 0.5, 0.75, 1.0, 0.0]))] for p in sorted(sites)]
+        rng.shuffle(drops)
+        g = None
+        if rng.random() < 0.5:
+            per = [bool(rng.integers(0, 2)) for _ in range(dim)]
+            g = {"family": "cart", "bounds": [[lo * 0.5, lo * 0.5 + float(n)]] * dim, "shape": [2 * n] * dim, "periodic": per}
+        return {"droplets": drops, "d_min": float(rng.choice([0.0, 0.0, 0.25, -0.25, 0.5, 1.0])), "grid": g, "exact": True,
+                "cls": str(rng.choice(["SphericalDroplet", "DiffuseDroplet"]))}
     if kind == "random":
         dim = int(rng.choice([1, 2, 2, 3]))
         n = int(rng.integers(0, 9))
